@@ -323,3 +323,33 @@ pub fn run_case(id: &str, c: &AppCase, out: &mut String) {
     out.push_str(&format!("repro {}\n", oneline(&repro)));
     out.push_str("end\n");
 }
+
+
+/// Parses `row <sec> <glob> <trade> <settle> <idx> <affkey> <R|N> <action...>` protocol lines back
+/// into transactions (for the `*-replay` modes); affiliate names are synthesised from the keys.
+pub fn parse_rows(dflt: usize, lines: &[String]) -> Option<(Vec<String>, Vec<Tx>)> {
+    let mut names: Vec<String> = vec!["Default".to_string()];
+    let mut rows = Vec::new();
+    for l in lines {
+        let t: Vec<&str> = l.split_whitespace().collect();
+        if t.first() != Some(&"row") {
+            continue;
+        }
+        let sec: usize = t[1].parse().ok()?;
+        let glob = t[2] == "1";
+        let fake = vec![format!("case x ledger dflt={} init=-", dflt), format!("tx {}", t[3..].join(" "))];
+        let c = ledger::parse_case(&fake)?;
+        let mut tx = c.txs.into_iter().next()?;
+        tx.security = if sec == 999 { "ZZZ".to_string() } else { format!("S{}", sec) };
+        if glob {
+            tx.affiliate = Affiliate::global();
+        } else {
+            let n = tx.affiliate.name().to_string();
+            if !names.contains(&n) {
+                names.push(n);
+            }
+        }
+        rows.push(tx);
+    }
+    Some((names, rows))
+}
